@@ -113,6 +113,13 @@ pub fn replay(args: &[String]) {
     crate::util::install_panic_hook();
     for op in r["ops"].as_array().cloned().unwrap_or_default() {
         let p = op["parser"].as_u64().unwrap_or(0) as usize;
+        if let Some(e) = op.get("evict") {
+            let map = e["map"].as_str().unwrap_or("");
+            let id = e["id"].as_u64().unwrap_or(0) as u16;
+            let was = crate::ctx::evict_from(&mut sut.parsers[p], map, id);
+            println!("parser {}: application removes id {} from {} (present: {})", p, id, map, was);
+            continue;
+        }
         let b = crate::util::unhex(op["hex"].as_str().unwrap_or(""));
         let res = std::panic::catch_unwind(std::panic::AssertUnwindSafe(|| sut.parse(p, &b)));
         match res {
